@@ -113,7 +113,9 @@ def run_tlc(module, cfg=None, env=None, workers=1, timeout=3600,
 def require_ok(res, what):
     """Machinery guard: TLC must have run to completion without tool errors."""
     if res['broken'] or (res['rc'] != 0 and not res['violation']):
-        tail = res['stdout'][-3000:]
+        out = res['stdout']
+        k = out.find('Error:')
+        tail = out[k:k + 2500] if k >= 0 else out[-3000:]
         raise MachineryError(f'TLC failed on {what} (rc={res["rc"]}):\n{tail}')
 
 
